@@ -78,6 +78,12 @@ Theorem C12_no_cross_trace_attribution_tree : forall order recs t n,
 Proof. exact tree_nodes_from_records. Qed.
 Print Assumptions C12_no_cross_trace_attribution_tree.
 
+Theorem C12_no_cross_trace_attribution : forall order recs T t,
+  gantt_view order (filter (of_trace T) recs) = Some t ->
+  Forall (fun n => sp_trace (g_span n) = T) (tree_nodes t).
+Proof. exact tree_only_own_trace. Qed.
+Print Assumptions C12_no_cross_trace_attribution.
+
 (* ------------------------------------------------------------------------------------ *)
 (* trace search                                                                          *)
 (* ------------------------------------------------------------------------------------ *)
